@@ -20,8 +20,8 @@ Ltac refute :=
   let g := fresh "g" in let B := fresh "B" in let R := fresh "R" in
   intros [g [B R]]; vm_compute in B; first [discriminate B | inversion B; subst; vm_compute in R; discriminate R].
 
-Definition a := PName "a". Definition b := PName "b". Definition c := PName "c".
-Definition comp1 := PComprehension (PName "x") (PName "y") [] false.
+Definition a := PName "a" false. Definition b := PName "b" false. Definition c := PName "c" false.
+Definition comp1 := PComprehension (PName "x" false) (PName "y" false) [] false.
 
 (* (a + b) * c  ->  a + b * c *)
 Definition w_F1 := PBinOp (PBinOp a B_Add b) B_Mult c.
@@ -39,7 +39,7 @@ Lemma refuted_F4 : refutes G_LAMBDA w_F4. Proof. refute. Qed.
 Definition w_F4b := PLambda [PParam "p" None] [] None [] None (PNum true "0").
 Lemma refuted_F4b : refutes G_LAMBDA w_F4b. Proof. refute. Qed.
 (* (x for x in y)  ->  x for x in y *)
-Definition w_F6 := PGeneratorExp (PName "x") [comp1].
+Definition w_F6 := PGeneratorExp (PName "x" false) [comp1].
 Lemma refuted_F6 : refutes G_GENEXP w_F6. Proof. refute. Qed.
 (* a[()]  ->  a[] *)
 Definition w_F7 := PSubscript a false (PTuple []).
@@ -51,13 +51,13 @@ Lemma refuted_F8 : refutes G_YIELD w_F8. Proof. refute. Qed.
 Definition w_F9 := PAttribute (PNum true "1") "real".
 Lemma refuted_F9 : refutes G_INT_ATTR w_F9. Proof. refute. Qed.
 (* f(await x): nothing is stored *)
-Definition w_F10 := PCall (PName "f") [PAwait (PName "x")] [].
+Definition w_F10 := PCall (PName "f" false) [PAwait (PName "x" false)] [].
 Lemma refuted_F10 : refutes G_AWAIT w_F10. Proof. refute. Qed.
 
 (* F14: f().typing.Literal["int"] -- the unrepaired _build_subscript takes the chain for typing.Literal and keeps the string,
    although the rule (and the repaired code) parses it *)
-Definition w_F14 := PSubscript (PAttribute (PAttribute (PCall (PName "f") [] []) "typing") "Literal") false
-                               (PStr "'int'" "int" (Some (PName "int"))).
+Definition w_F14 := PSubscript (PAttribute (PAttribute (PCall (PName "f" false) [] []) "typing") "Literal") false
+                               (PStr "'int'" "int" (Some (PName "int" false))).
 Definition pctx := mkCtx (Parse false) false false false.
 Lemma rule_refuted_F14 :
   no_parsed w_F14 = true /\ rule_ok false w_F14 = false /\
@@ -70,7 +70,7 @@ Proof. repeat split; try reflexivity. vm_compute. discriminate. Qed.
    spacing, F11 in_subscript leak, F12 non-finite literals) *)
 Definition w_F2 := PDict [PDictItem None a].
 Definition w_F5 := PDictComp a b [comp1].
-Definition w_F11 := PSubscript a false (PCall (PName "f") [PTuple [PNum true "1"; PNum true "2"]] []).
+Definition w_F11 := PSubscript a false (PCall (PName "f" false) [PTuple [PNum true "1"; PNum true "2"]] []).
 Definition w_F12 := PList [PNum false "inf"; PNum false "infj"; PNum false "1.5"; PNum true "7"].
 Example repaired_witnesses_gapfree :
   forallb (fun e => wf e && negb (known_gap fx_all P_TEST e))
@@ -92,11 +92,11 @@ Proof. exists w_F1. destruct refuted_F1 as [H [_ H']]. split; assumption. Qed.
 (* an if-expression over a subscript with slice, a comparison, and a call with starred argument and a lambda keyword: gap-free
    even for the printer without repairs *)
 Definition ex_big :=
-  PIfExp (PSubscript (PAttribute a "b") false (PTuple [c; PSlice (Some (PName "x")) (Some (PName "y")) None]))
+  PIfExp (PSubscript (PAttribute a "b") false (PTuple [c; PSlice (Some (PName "x" false)) (Some (PName "y" false)) None]))
          (PUnaryOp U_Not (PCompare a [C_Lt] [b]))
-         (PCall (PName "f") [PStarred c]
+         (PCall (PName "f" false) [PStarred c]
             [PKeyword (Some "k") (PLambda [PParam "p" None] [PParam "q" (Some (PNum true "1"))] None [PParam "r" None] None
-                                          (PBinOp (PName "p") B_Pow (PUnaryOp U_USub (PName "q"))))]).
+                                          (PBinOp (PName "p" false) B_Pow (PUnaryOp U_USub (PName "q" false))))]).
 Example ex_big_gapfree : wf ex_big = true /\ known_gap fx_none P_TEST ex_big = false /\ known_gap fx_all P_TEST ex_big = false.
 Proof. repeat split; reflexivity. Qed.
 Example ex_big_text :
@@ -108,10 +108,10 @@ Proof. split; reflexivity. Qed.
    in the domain of the theorem for the repaired printer only *)
 Definition ex_rep :=
   PBinOp (PBoolOp L_Or [a; PIfExp b c a]) B_Mult
-         (PCall (PName "f") [PGeneratorExp (PUnaryOp U_USub (PBinOp a B_Pow b)) [comp1]] []).
+         (PCall (PName "f" false) [PGeneratorExp (PUnaryOp U_USub (PBinOp a B_Pow b)) [comp1]] []).
 Definition ex_fstr :=
   PJoinedStr [PStr "'it''s {'" "it's {" None; PFormattedValue (PDict [PDictItem (Some a) b]) 114
-                (Some (PJoinedStr [PStr "'>'" ">" None; PFormattedValue (PName "w") (-1) None]))].
+                (Some (PJoinedStr [PStr "'>'" ">" None; PFormattedValue (PName "w" false) (-1) None]))].
 Example ex_rep_text :
   wf ex_rep = true /\ known_gap fx_all P_TEST ex_rep = false /\ known_gap fx_none P_TEST ex_rep = true /\
   option_map (render fx_all) (build fx_all [] ctx0 ex_rep) = Some "(a or (b if c else a)) * f(-a ** b for x in y)" /\
@@ -122,10 +122,10 @@ Proof. repeat split; reflexivity. Qed.
 (* Optional["List['int']"] as an annotation: the outer string is code, the inner one stays a string; Literal["x"] keeps its
    string when the module binds Literal to typing.Literal -- and does not when it binds it to something else *)
 Definition ex_ann :=
-  PTuple [PSubscript (PName "Optional") false
+  PTuple [PSubscript (PName "Optional" false) false
             (PStr """List['int']""" "List['int']"
-               (Some (PSubscript (PName "List") false (PStr "'int'" "int" (Some (PName "int"))))));
-          PSubscript (PName "Literal") true (PStr "'x'" "x" (Some (PName "x")))].
+               (Some (PSubscript (PName "List" false) false (PStr "'int'" "int" (Some (PName "int" false))))));
+          PSubscript (PName "Literal" false) true (PStr "'x'" "x" (Some (PName "x" false)))].
 Definition env_typing : nenv := [("Literal", "typing.Literal"); ("Optional", "typing.Optional")].
 Definition env_other : nenv := [("Literal", "typing.List")].
 Example ex_ann_rule :
@@ -139,6 +139,31 @@ Example ex_names :
   option_map (fun g => item_names (iterate fx_all true g)) (build fx_all [] ctx0 ex_big)
   = Some ["a"; "b"; "c"; "x"; "y"; "a"; "b"; "f"; "c"; "p"; "q"].
 Proof. reflexivity. Qed.
+
+(* ---------- names the expression binds itself ---------- *)
+(* [p for p in q.r for s in p.t if s]: p and s are local everywhere except in the iterable of the first clause *)
+Definition ex_scope :=
+  PListComp (PName "p" true)
+    [PComprehension (PName "p" true) (PAttribute (PName "q" false) "r") [] false;
+     PComprehension (PName "s" true) (PAttribute (PName "p" true) "t") [PName "s" true] false].
+(* lambda p, q=p: p -- the default is evaluated outside, the body inside *)
+Definition ex_scope_lambda := PLambda [] [PParam "p" None; PParam "q" (Some (PName "p" false))] None [] None (PName "p" true).
+Example ex_scope_ok :
+  scope_ok [] ex_scope = true /\ scope_ok [] ex_scope_lambda = true /\
+  scope_ok [] (PListComp (PName "p" false) [PComprehension (PName "p" true) (PName "p" true) [] false]) = false /\
+  option_map (fun g => map (enc_item fx_none) (iterate fx_none true g)) (build fx_none [("q", "pkg.q")] ctx0 ex_scope)
+  = Some [SList [SInt 0; SStr "["]; SList [SInt 1; SStr "p"; SStr "none"; SStr "p"]; SList [SInt 0; SStr " "]; SList [SInt 0; SStr "for "];
+          SList [SInt 1; SStr "p"; SStr "none"; SStr "p"]; SList [SInt 0; SStr " in "]; SList [SInt 1; SStr "q"; SStr "scope"; SStr "q"];
+          SList [SInt 0; SStr "."]; SList [SInt 1; SStr "r"; SStr "name"; SStr "q.r"]; SList [SInt 0; SStr " "]; SList [SInt 0; SStr "for "];
+          SList [SInt 1; SStr "s"; SStr "none"; SStr "s"]; SList [SInt 0; SStr " in "]; SList [SInt 1; SStr "p"; SStr "none"; SStr "p"];
+          SList [SInt 0; SStr "."]; SList [SInt 1; SStr "t"; SStr "name"; SStr "p.t"]; SList [SInt 0; SStr " if "];
+          SList [SInt 1; SStr "s"; SStr "none"; SStr "s"]; SList [SInt 0; SStr "]"]].
+Proof. repeat split; reflexivity. Qed.
+(* a name bound by the expression has no parent: it resolves to itself, whatever the module binds under that spelling *)
+Lemma local_name_unresolved fx env c id :
+  build fx env c (PName id true) = Some (GName id ParNone) /\ gcanon env (GName id ParNone) = Some id /\
+  build fx env c (PName id false) = Some (GName id ParScope) /\ gcanon env (GName id ParScope) = Some (resolve env id).
+Proof. repeat split; reflexivity. Qed.
 
 (* ---------- modernize() is the identity in this version ---------- *)
 Lemma modernize_id fx g : render fx (modernize g) = render fx g.
@@ -202,13 +227,13 @@ Proof.
 Qed.
 
 Theorem dotted_chain_parent_links (cx : bctx) (r x : string) (attrs : list string) :
-  build cx (chain_expr (PName r) (x :: attrs)) = Some (GAttribute (GName r ParScope :: chain_names r (x :: attrs))).
+  build cx (chain_expr (PName r false) (x :: attrs)) = Some (GAttribute (GName r ParScope :: chain_names r (x :: attrs))).
 Proof.
   destruct cx as [m s j f].
-  assert (Hs : build (mkCtx m s j f) (chain_expr (PName r) (x :: attrs)) = build (mkCtx m false j f) (chain_expr (PName r) (x :: attrs))).
-  { destruct (chain_head (PName r) x attrs) as [e' [z ->]]. reflexivity. }
+  assert (Hs : build (mkCtx m s j f) (chain_expr (PName r false) (x :: attrs)) = build (mkCtx m false j f) (chain_expr (PName r false) (x :: attrs))).
+  { destruct (chain_head (PName r false) x attrs) as [e' [z ->]]. reflexivity. }
   rewrite Hs. cbn [chain_expr chain_names].
-  rewrite (chain_step m j f (PAttribute (PName r) x) [GName r ParScope; GName x (ParName r)] (r ++ "." ++ x)%string attrs).
+  rewrite (chain_step m j f (PAttribute (PName r false) x) [GName r ParScope; GName x (ParName r)] (r ++ "." ++ x)%string attrs).
   - reflexivity.
   - reflexivity.
   - reflexivity.
@@ -216,15 +241,15 @@ Qed.
 
 (* ... and the canonical path of the chain is the root's resolution followed by the attribute names *)
 Theorem dotted_chain_canonical (cx : bctx) (r x : string) (attrs : list string) (g : gexpr) :
-  pm cx = NoParse -> build cx (chain_expr (PName r) (x :: attrs)) = Some g ->
+  pm cx = NoParse -> build cx (chain_expr (PName r false) (x :: attrs)) = Some g ->
   gcanon env g = Some (fold_left (fun p a => (p ++ "." ++ a)%string) (x :: attrs) (resolve env r)).
 Proof.
   intros Hm Hb.
-  assert (Hr : rule_ok (fx_litroot fx) (chain_expr (PName r) (x :: attrs)) = true).
-  { generalize (PName r) (x :: attrs) (eq_refl : rule_ok (fx_litroot fx) (PName r) = true).
+  assert (Hr : rule_ok (fx_litroot fx) (chain_expr (PName r false) (x :: attrs)) = true).
+  { generalize (PName r false) (x :: attrs) (eq_refl : rule_ok (fx_litroot fx) (PName r false) = true).
     intros e l. revert e. induction l as [|y l IH]; intros e He; [exact He|]. cbn [chain_expr]. apply IH. exact He. }
   pose proof (canon_of_build fx env _ cx g Hm Hr Hb) as H.
-  assert (Hc : src_canon env (chain_expr (PName r) (x :: attrs)) = Some (fold_left (fun p a => (p ++ "." ++ a)%string) (x :: attrs) (resolve env r))).
+  assert (Hc : src_canon env (chain_expr (PName r false) (x :: attrs)) = Some (fold_left (fun p a => (p ++ "." ++ a)%string) (x :: attrs) (resolve env r))).
   { assert (Hgen : forall l e p, src_canon env e = Some p -> src_canon env (chain_expr e l) = Some (fold_left (fun p a => (p ++ "." ++ a)%string) l p)).
     { induction l as [|y l IH]; intros e p He; [exact He|]. cbn [chain_expr fold_left]. apply IH. cbn [src_canon]. rewrite He. reflexivity. }
     apply Hgen. reflexivity. }
@@ -233,7 +258,7 @@ Qed.
 End Chains.
 
 Example dotted_example :
-  option_map (fun g => map gname_path (match g with GAttribute vs => vs | _ => [] end)) (build fx_none [] ctx0 (chain_expr (PName "a") ["b"; "c"]))
+  option_map (fun g => map gname_path (match g with GAttribute vs => vs | _ => [] end)) (build fx_none [] ctx0 (chain_expr (PName "a" false) ["b"; "c"]))
   = Some ["a"; "a.b"; "a.b.c"]
-  /\ option_map (gcanon [("t", "typing")]) (build fx_none [("t", "typing")] ctx0 (chain_expr (PName "t") ["Literal"])) = Some (Some "typing.Literal").
+  /\ option_map (gcanon [("t", "typing")]) (build fx_none [("t", "typing")] ctx0 (chain_expr (PName "t" false) ["Literal"])) = Some (Some "typing.Literal").
 Proof. split; reflexivity. Qed.
